@@ -9,6 +9,7 @@ mod phyrx;
 mod las;
 mod scan;
 mod fdl;
+mod gsd;
 mod util;
 
 use std::io::{BufRead, Write};
@@ -25,6 +26,7 @@ const DOMAINS: &[(&str, GenFn, RunFn)] = &[
     ("las", las::gen, las::run_case),
     ("scan", scan::gen, scan::run_case),
     ("fdl", fdl::gen, fdl::run_case),
+    ("gsd", gsd::gen, gsd::run_case),
 ];
 
 fn main() {
